@@ -97,6 +97,14 @@ def step (s : St) (op : List String) : St × String :=
     match fr a, fr b with
     | some d, some sr => let r := copy s.mem d sr; ({ s with mem := r.1 }, toString r.2)
     | _, _ => (s, "panic")
+  | ["codec", a] =>
+    -- encode the view, decode into a fresh frame: a new allocation holding exactly the view's rows
+    match fr a with
+    | some f =>
+      match make nc s.mem f.len f.len with
+      | some (m, g) => let r := copy m g f; ({ s with mem := r.1, frames := s.frames ++ [g] }, "ok")
+      | none => (s, "panic")
+    | none => (s, "panic")
   | ["append", a, b] =>
     match fr a, fr b with
     | some d, some sr => let r := appendFrame nc s.mem d sr; push r.1 r.2
